@@ -59,6 +59,12 @@ class Conn:
             self.net.changed()
         return n
 
+    def client_send_oob(self):
+        """one byte of TCP urgent data (send(b"x", MSG_OOB)): not part of the byte stream"""
+        self.oob_pending = True
+        self.net.world.event("c-oob", self.cid)
+        self.net.changed()
+
     def client_shutdown_wr(self):
         self.client_fin = True
         self.net.world.event("c-fin", self.cid)
@@ -376,6 +382,14 @@ class Net:
             return bool(obj.buf) or obj.closed_w
         return False
 
+    def exceptional(self, fd):
+        what = self.fds.get(fd)
+        if what is None:
+            return False
+        kind, obj = what
+        # urgent data stays "exceptional" until somebody reads it with MSG_OOB (nobody does)
+        return kind == "conn" and bool(getattr(obj, "oob_pending", False)) and not obj.server_closed
+
     def writable(self, fd):
         what = self.fds.get(fd)
         if what is None:
@@ -402,6 +416,8 @@ class Net:
                 rev |= _sel.POLLERR | _sel.POLLHUP
             elif getattr(obj, "sock_error", 0):
                 rev |= _sel.POLLERR
+            if getattr(obj, "oob_pending", False) and flags & _sel.POLLPRI:
+                rev |= _sel.POLLPRI
         return rev
 
     # ---- pipes (the trigger)
